@@ -40,13 +40,34 @@ type wop struct {
 	kind string // set | update | delete | add
 	id   string
 	val  int32
+	at   int64 // != 0: the write carries an explicit write time, writeTimeBase + at seconds (years before the wall clock's now, and not increasing from write to write)
 }
 
+var writeTimeBase = time.Unix(1000000000, 0)
+
 func (w wop) String() string {
-	if w.kind == "delete" {
-		return fmt.Sprintf("delete(%s)", w.id)
+	at := ""
+	if w.at != 0 {
+		at = fmt.Sprintf("@%+d", w.at)
 	}
-	return fmt.Sprintf("%s(%s,%d)", w.kind, w.id, w.val)
+	if w.kind == "delete" {
+		return fmt.Sprintf("delete(%s)%s", w.id, at)
+	}
+	return fmt.Sprintf("%s(%s,%d)%s", w.kind, w.id, w.val, at)
+}
+
+func (w wop) opts(more ...resource.WriteOption) []resource.WriteOption {
+	if w.at != 0 {
+		more = append(more, resource.WithWriteTime(writeTimeBase.Add(time.Duration(w.at)*time.Second)))
+	}
+	return more
+}
+
+func drawAt(t *rapid.T, label string) int64 {
+	if rapid.IntRange(0, 2).Draw(t, label+"hasAt") != 0 {
+		return 0
+	}
+	return int64(rapid.SampledFrom([]int{-5, -2, -1, 1, 2, 5, 3600}).Draw(t, label+"at"))
 }
 
 type subSpec struct {
@@ -166,20 +187,20 @@ func (w *world) write(op wop, who int) error {
 	}
 	switch {
 	case w.isValue:
-		_, err = w.val.Set(fm(op.val))
+		_, err = w.val.Set(fm(op.val), op.opts()...)
 	case op.kind == "delete":
 		// deletes running on the driver goroutine (top level or injected inline) publish while holding the write lock
 		if who == 0 || who == 8 {
 			w.deleteDepth.Add(1)
 		}
-		_, err = w.col.Delete(op.id, resource.WithAllowMissing(true))
+		_, err = w.col.Delete(op.id, op.opts(resource.WithAllowMissing(true))...)
 		if who == 0 || who == 8 {
 			w.deleteDepth.Add(-1)
 		}
 	case op.kind == "add":
-		_, err = w.col.Add(op.id, fm(op.val))
+		_, err = w.col.Add(op.id, fm(op.val), op.opts()...)
 	default:
-		_, err = w.col.Update(op.id, fm(op.val), resource.WithCreateIfAbsent())
+		_, err = w.col.Update(op.id, fm(op.val), op.opts(resource.WithCreateIfAbsent())...)
 	}
 	id := op.id
 	if w.isValue {
@@ -381,7 +402,7 @@ func genScenario(t *rapid.T, parallel bool) scenario {
 		n := rapid.IntRange(1, 5).Draw(t, "nwrites")
 		var ws []wop
 		for j := 0; j < n; j++ {
-			w := wop{kind: "update", val: val}
+			w := wop{kind: "update", val: val, at: drawAt(t, "w")}
 			val++
 			if s.isValue {
 				w.kind, w.id = "set", "value"
@@ -427,7 +448,7 @@ func genScenario(t *rapid.T, parallel bool) scenario {
 			in.action = "yield"
 		}
 		if in.action == "write" {
-			in.w = wop{kind: "update", val: val}
+			in.w = wop{kind: "update", val: val, at: drawAt(t, "iw")}
 			val++
 			if s.isValue {
 				in.w.kind, in.w.id = "set", "value"
@@ -552,6 +573,10 @@ func runScenario(t *rapid.T, s scenario) {
 							// on the known publication window of Update/Set
 							who = 7
 							w.deleteHelpers.Add(1)
+							// ... except when the Delete itself was injected into the publication window of an enclosing
+							// Update of the same id: that Update is still publishing when the Delete is over, and this
+							// write then races it exactly like a write forced into coll.update.afterCommit
+							markRisk(in.w.id, false)
 						}
 						go func(op wop) {
 							defer w.helpers.Done()
